@@ -9,7 +9,7 @@ from ..engine.flow import TOTAL_BUILTINS, Automaton, Runner, State, violation
 from ..engine.match import Spec, loop_doms, require_return, require_returns_table, residual
 from ..engine.repo import AnalysisError, dotted
 from ..engine.report import Check
-from ..engine.terms import C, Term, conjuncts, show, substitute, subterms
+from ..engine.terms import C, Term, conjuncts, free_vars, show, substitute, subterms
 from ..engine.walker import Event
 from .common import functions_mentioning, only_called_from, short
 
@@ -167,9 +167,75 @@ def r15_3(ck: Check, only_prefix: Optional[str] = None) -> None:
         ck.expect_count("R15.3", "hand-out call sites", sites, 2)
 
 
-def atomic_replace(ck: Check, rule: str, qual: str, final_text: str, what: str) -> None:
+def _closed(t: Term) -> bool:
+    return not any(x[0] in ("v", "lv", "e", "new") for x in subterms(t))
+
+
+def _str_leaves(t: Term) -> Set[str]:
+    return {x[1] for x in subterms(t) if x[0] == "c" and len(x) == 2 and isinstance(x[1], str)}
+
+
+def _never_none(t: Term) -> bool:
+    if t[0] == "c":
+        return t[1] is not None
+    if t[0] == "or":
+        return any(x[0] == "c" and bool(x[1]) for x in t[1])       # a true member: the result is a true value
+    return t[0] in ("cat", "list", "tuple", "lin")
+
+
+def _decide_none_tests(t: Any) -> Any:
+    """after a parameter was replaced by its value: `A if X is None else B` with X known (not) to be None"""
+    if not isinstance(t, tuple):
+        return t
+    t = tuple(_decide_none_tests(x) for x in t)
+    if t and t[0] == "ife" and len(t) == 4 and t[1][0] == "cmp" and t[1][1] in ("is", "isnot") and C(None) in (t[1][2], t[1][3]):
+        x = t[1][2] if t[1][3] == C(None) else t[1][3]
+        yes, no = (t[2], t[3]) if t[1][1] == "is" else (t[3], t[2])
+        if x == C(None):
+            return yes
+        if _never_none(x):
+            return no
+    return t
+
+
+def param_bindings(ck: Check, qual: str, pname: str) -> List[Term]:
+    """the values the parameter `pname` of `qual` takes over all call sites in the repository (default included when a site omits
+    it); each must be closed (no caller-local names), else the analysis is refused"""
+    fi = ck.repo.func(qual)
+    idx = fi.params.index(pname)
+    dflt = fi.defaults().get(pname)
+    out: List[Term] = []
+    sites = 0
+    for cf in functions_mentioning(ck, fi.name):
+        cs = ck.summ(cf.qualname, 0)
+        for e in cs.events:
+            if e.kind != "call" or e.chain or qual not in e.targets or e.term[0] != "call":
+                continue
+            sites += 1
+            args, kw = e.term[2], dict(e.term[3])
+            shift = 1 if (fi.cls is not None and e.parts and e.parts[0][0] == "a") else 0
+            if len(args) > idx - shift >= 0:
+                v = args[idx - shift]
+            elif pname in kw:
+                v = kw[pname]
+            elif dflt is not None:
+                v = Spec(ck.summ(qual, 0), ()).term(ast.unparse(dflt))
+            else:
+                raise AnalysisError("call to %s without a value for %s at %s" % (short(qual), pname, e.loc))
+            if not _closed(v):
+                raise AnalysisError("%s is called with a %s that depends on caller-local names (%s) at %s" % (short(qual), pname, show(v)[:80], e.loc))
+            if v not in out:
+                out.append(v)
+    if not sites and dflt is not None:
+        out.append(Spec(ck.summ(qual, 0), ()).term(ast.unparse(dflt)))
+    return out
+
+
+def atomic_replace(ck: Check, rule: str, qual: str, final_text: str, what: str) -> Optional[Term]:
     """write side file inside `with open(side, 'w')`, then os.replace(side, final) after the file is closed, as the last effect;
-    nothing else in the repository opens / removes / renames the final path for writing (listed exceptions aside)."""
+    nothing else in the repository opens / removes / renames the final path for writing (listed exceptions aside).
+    The final path is either the constant `final_text` or one expression (the same at every call site) that may fall back to it -
+    e.g. a default that an environment variable overrides; the expression is returned so that readers can be checked against it."""
     s = ck.summ(qual, 0)
     sp = Spec(s, ())
     final = sp.term(final_text)
@@ -180,16 +246,29 @@ def atomic_replace(ck: Check, rule: str, qual: str, final_text: str, what: str) 
     repl = [e for e in s.events if e.kind == "call" and e.parts[0] in (("g", "ext:os.replace"), ("g", "ext:os.rename"))]
     construct = "%s: side file written and closed, then os.replace(side, %r)" % (short(qual), final[1])
     problems = []
+    target: Optional[Term] = None
     if len(opens) != 1:
         problems.append("%d files opened for writing" % len(opens))
     if len(repl) != 1:
         problems.append("%d replace/rename calls" % len(repl))
     if not problems:
         side = opens[0].term[2][0]
-        if side == final:
+        target = repl[0].term[2][1] if len(repl[0].term[2]) == 2 else None
+        if target is not None and target != final:
+            # parameters take the values the call sites give them; what remains must be one closed expression around the default name
+            for pn in sorted(free_vars(target) & set(s.fi.params)):
+                vals = param_bindings(ck, qual, pn)
+                got = {(_decide_none_tests(substitute(target, {("v", pn): v})), _decide_none_tests(substitute(side, {("v", pn): v}))) for v in vals}
+                if len(got) != 1:
+                    problems.append("the final path depends on the parameter %s, which gives %d different paths over the call sites" % (pn, len(got)))
+                else:
+                    target, side = next(iter(got))
+            if target != final and not (_closed(target) and final[1] in _str_leaves(target)):
+                problems.append("replace(%s) does not move the side file onto the final path" % ", ".join(show(a) for a in repl[0].term[2]))
+        if side == target or side == final:
             problems.append("the final file itself is opened for writing (a crash mid-write leaves a truncated file)")
-        if repl[0].term[2] != (side, final):
-            problems.append("replace(%s) does not move the side file onto the final path" % ", ".join(show(a) for a in repl[0].term[2]))
+        if target is None or repl[0].term[2][0] != opens[0].term[2][0]:
+            problems.append("replace(%s) does not move the side file that was written" % ", ".join(show(a) for a in repl[0].term[2]))
         if repl[0].parts[0] != ("g", "ext:os.replace"):
             problems.append("os.rename is not atomic-overwrite on all platforms")
         if opens[0].term in repl[0].withs:
@@ -205,14 +284,46 @@ def atomic_replace(ck: Check, rule: str, qual: str, final_text: str, what: str) 
             problems.append("the replace precedes the write")
     if problems:
         ck.violated(rule, construct, "%s — %s" % (what, "; ".join(problems)), s.fi.loc)
-    else:
-        ck.ok(rule, construct, what, s.fi.loc)
+        return None
+    ck.ok(rule, construct, what if target == final else "%s (final path: %s)" % (what, show(target)[:100]), s.fi.loc)
+    return target
 
 
-def final_path_writers(ck: Check, rule: str, final: str, allowed: Dict[str, str], replacer: Optional[str] = None) -> None:
+def final_path_writers(ck: Check, rule: str, final: str, allowed: Dict[str, str], replacer: Optional[str] = None,
+                       final_term: Optional[Term] = None) -> None:
     """`replacer`: the one function whose write-side-file-then-os.replace sequence was verified; an os.replace onto the final path
-    anywhere else (or in a helper not only it calls) moves an unverified - possibly partial - file into place."""
+    anywhere else (or in a helper not only it calls) moves an unverified - possibly partial - file into place.
+    `final_term`: when the final path is an expression rather than the constant, sites that write the path that expression gives."""
     n = 0
+    if final_term is not None and final_term != C(final):
+        for fi in ck.repo.all_functions():
+            if ck.walker.transparent(fi.qualname):
+                continue
+            for e in ck.summ(fi.qualname, 0).events:
+                if e.kind != "call" or e.chain or not e.parts or e.parts[0][0] != "g" or e.term[0] != "call":
+                    continue
+                ref, args = e.parts[0][1], e.term[2]
+                what = None
+                if ref == "builtin:open" and args and args[0] == final_term:
+                    mode = args[1] if len(args) > 1 else dict(e.term[3]).get("mode", C("r"))
+                    if mode[0] != "c" or any(ch in str(mode[1]) for ch in "wa+x"):
+                        what = "open(%s, %s)" % (show(final_term)[:60], show(mode))
+                elif ref in ("ext:os.remove", "ext:os.unlink", "ext:os.truncate") and args and args[0] == final_term:
+                    what = "%s(%s)" % (ref[4:], show(final_term)[:60])
+                elif ref in ("ext:os.rename", "ext:os.replace", "ext:shutil.move", "ext:shutil.copy", "ext:shutil.copyfile") and len(args) == 2 \
+                        and args[1] == final_term:
+                    what = "%s(.., %s)" % (ref[4:], show(final_term)[:60])
+                if what is None:
+                    continue
+                key = "%s:%s" % (fi.qualname, what.split("(")[0])
+                if key in allowed:
+                    ck.note("%s: %s %s — %s" % (rule, short(fi.qualname), what, allowed[key]))
+                    continue
+                if what.startswith("os.replace") and replacer is not None and (fi.qualname == replacer or only_called_from(ck, fi.qualname, {replacer}, 0)):
+                    continue
+                n += 1
+                ck.violated(rule, "%s writes %r directly" % (short(fi.qualname), final),
+                            "%s — the final file must only ever be the target of os.replace" % what, e.loc)
     ctl = _path_writers(ast.parse("open('%s', 'w')\nimport os\nos.remove('%s')\nos.replace('x', '%s')\n" % (final, final, final)), final, lambda n_: None)
     if len(ctl) != 3:
         ck.unknown(rule, "positive control", "the final-path writer scan did not flag its control snippet")
@@ -322,7 +433,8 @@ def r15_8(ck: Check) -> None:
     q = "skepticoin.scripts.utils.open_or_init_wallet"
     s = ck.summ(q, 0)
     sp = Spec(s, ())
-    exists = sp.term("os.path.isfile('wallet.json')")
+    path = getattr(ck, "wallet_path", None) or C("wallet.json")        # the path save_wallet replaces (R15.4)
+    exists = substitute(sp.term("os.path.isfile('wallet.json')"), {C("wallet.json"): path})
     loads = [e for e in s.events if e.kind == "call" and not e.chain and WC + ".load" in e.targets]
     gens = [e for e in s.events if e.kind == "call" and not e.chain and WC + ".generate_keys" in e.targets]
     saves = [e for e in s.events if e.kind == "call" and not e.chain and W + "save_wallet" in e.targets]
@@ -331,7 +443,10 @@ def r15_8(ck: Check) -> None:
     cs = lambda e: {x for c in e.pc for x in conjuncts(c.term)}   # noqa
     from ..engine.terms import mk_not
     construct = "open_or_init_wallet: wallet.json exists -> Wallet.load(it), nothing else; otherwise empty + generate_keys + save_wallet"
-    ok = (len(loads) == 1 and cs(loads[0]) == {exists} and len(gens) == 1 and len(saves) == 1 and cs(gens[0]) == {mk_not(exists)} == cs(saves[0])
+    src = loads[0].term[2][0] if len(loads) == 1 and loads[0].term[0] == "call" and loads[0].term[2] else None
+    reads_it = src is not None and src[0] == "call" and src[1] == ("g", "builtin:open") and src[2][:1] == (path,) and (
+        len(src[2]) == 1 or src[2][1] in (C("r"), C("rt")))
+    ok = (len(loads) == 1 and reads_it and cs(loads[0]) == {exists} and len(gens) == 1 and len(saves) == 1 and cs(gens[0]) == {mk_not(exists)} == cs(saves[0])
           and gens[0].seq < saves[0].seq and not other)
     if ok:
         ck.ok("R15.8", construct, "", s.fi.loc)
@@ -340,14 +455,15 @@ def r15_8(ck: Check) -> None:
 
 
 def r15_4(ck: Check) -> None:
-    atomic_replace(ck, "R15.4", W + "save_wallet", "'wallet.json'", "at every instant wallet.json is the complete previous or the complete new wallet")
+    target = atomic_replace(ck, "R15.4", W + "save_wallet", "'wallet.json'", "at every instant wallet.json is the complete previous or the complete new wallet")
+    ck.wallet_path = target     # type: ignore[attr-defined]
     s = ck.summ(W + "save_wallet", 0)
     dump = [e for e in s.events if e.kind == "call" and WC + ".dump" in e.targets and e.parts[0][1] == ("v", s.fi.params[0])]
     if len(dump) == 1:
         ck.ok("R15.4", "save_wallet writes wallet.dump(f) of the wallet it was given", "", dump[0].loc)
     else:
         ck.violated("R15.4", "save_wallet writes wallet.dump(f) of the wallet it was given", "%d dump calls" % len(dump), s.fi.loc)
-    final_path_writers(ck, "R15.4", "wallet.json", {}, replacer=W + "save_wallet")
+    final_path_writers(ck, "R15.4", "wallet.json", {}, replacer=W + "save_wallet", final_term=target)
 
 
 def r15_5(ck: Check) -> None:
